@@ -124,6 +124,36 @@ pub fn parse_async_scripted(data: Arc<Vec<u8>>, sched: Schedule, fault: Option<(
     }
 }
 
+/// Blocking parser reading through an `IppPayload` that wraps an ASYNC scripted source (the payload of
+/// an earlier message, say): the library bridges with block_on, so only immediately-woken Pending.
+pub fn parse_blocking_via_async_payload(data: Arc<Vec<u8>>, sched: Schedule, fault: Option<(usize, std::io::ErrorKind)>) -> Outcome {
+    let mut sched = sched;
+    for s in sched.stalls.iter_mut() {
+        for d in s.iter_mut() {
+            *d = false;
+        }
+    }
+    let (src, _c) = Scripted::shared(data, sched, fault);
+    let r = catch(move || IppParser::new(IppReader::new(IppPayload::new_async(src))).parse_parts().map(|(h, a, _)| canon_parts(&h, &a, false)));
+    match r {
+        Err(p) => Outcome::Panic(panic_sig(&p)),
+        Ok(Err(e)) => err_outcome(&e),
+        Ok(Ok(canon)) => Outcome::Ok { canon, payload: vec![] },
+    }
+}
+
+/// Async parser reading through an `IppPayload` that wraps a BLOCKING scripted source.
+pub fn parse_async_via_sync_payload(data: Arc<Vec<u8>>, sched: Schedule, fault: Option<(usize, std::io::ErrorKind)>) -> Outcome {
+    let (src, c) = Scripted::shared(data, sched, fault);
+    let r = catch(move || drive(async move { AsyncIppParser::new(AsyncIppReader::new(IppPayload::new(src))).parse_parts().await.map(|(h, a, _)| canon_parts(&h, &a, false)) }, &[&c], POLL_BUDGET));
+    match r {
+        Err(p) => Outcome::Panic(panic_sig(&p)),
+        Ok(Err(e)) => Outcome::Exec(format!("{e:?}")),
+        Ok(Ok(Err(e))) => err_outcome(&e),
+        Ok(Ok(Ok(canon))) => Outcome::Ok { canon, payload: vec![] },
+    }
+}
+
 pub fn parse_async(data: &[u8], sched: Schedule) -> Outcome {
     parse_async_scripted(Arc::new(data.to_vec()), sched, None).0
 }
